@@ -99,6 +99,7 @@ type State struct {
 	baseFrames int // pure evaluation: frames[:baseFrames] belong to the caller and are shared
 	evBase  int // event builtins see st.events[evBase:]
 	opaque  int // !=0: event builtins refer to the (invisible) trace of callee activation #opaque
+	defDeps []string // callee clauses applied definitionally so far (immutable-append)
 	opaqueNfresh int // allocation counter when that callee was called (fresh() in its clauses: allocated during the call)
 }
 
@@ -119,7 +120,7 @@ type seqDef struct {
 func (st *State) top() *Frame { return st.frames[len(st.frames)-1] }
 
 func (st *State) clone() *State {
-	n := &State{pure: st.pure, chanVer: st.chanVer, steps: st.steps, definable: st.definable, opaque: st.opaque, opaqueNfresh: st.opaqueNfresh, evBase: st.evBase}
+	n := &State{defDeps: st.defDeps, pure: st.pure, chanVer: st.chanVer, steps: st.steps, definable: st.definable, opaque: st.opaque, opaqueNfresh: st.opaqueNfresh, evBase: st.evBase}
 	n.baseFrames = st.baseFrames
 	n.frames = make([]*Frame, len(st.frames))
 	for i, f := range st.frames {
@@ -213,6 +214,8 @@ type Obligation struct {
 	Output  string
 	Instances int
 	Hash   string
+	origins map[int][]string // see Machine.origins
+	DefDeps []string         // callee clauses used definitionally on this path (result content := spec)
 }
 
 type namedTerm struct {
@@ -241,6 +244,7 @@ type Machine struct {
 	globals   map[*ssa.Global]int64
 	trusted   map[string]bool
 	usedContracts map[string]bool
+	origins       map[int][]string // PC term id -> callee clauses ("callee|index") it was assumed from
 	problems  []string
 	loops     map[*ssa.Function]*loopInfo
 	loopHavoc map[string]map[string]bool // "fn#hdr" -> memory names to havoc
